@@ -12,13 +12,21 @@ compared with the extracted model.
 Search: the property stated on the implementation only (no model): whenever laspy lets go of a stream that was open when it got
 it, `stream.closed == closefd`; LasData.write leaves it open; right after a successful open for reading the caller's stream
 stands offset_to_point_data bytes after where it stood and the first read_points returns the file's first records; a stream left open stays open and
-usable after the handle is dropped and the garbage collector has run."""
+usable after the handle is dropped and the garbage collector has run.
+Stream faults (both passes): laspy is handed a proxy of the caller's stream on which the k-th call of
+read/readinto/seek/tell/write/flush/truncate since laspy got it raises (once, or from then on), for EVERY k of the session - while
+opening, under read_points / read / seek / chunk_iterator / read_evlrs / write_points / append_points / write_evlrs, inside
+close() / __exit__, inside laspy.read and LasData.write - with OSError and ten other classes (one of them not an Exception);
+a fault under a body operation is followed by the rest of the session (caught inside the with block, then normal exit or close())
+and by the exception leaving the with block. The oracle is the same iff at every moment laspy lets go of the stream; the model
+is told which event the fault came out of (outcome fault-<class>, EOpFault, EEndFault, EReadLasFault) and compared as usual."""
 import gc
 import io
 import os
 import random
 import shutil
 import struct
+import sys
 import zlib
 
 from harness import common, lasio
@@ -26,9 +34,15 @@ from harness import common, lasio
 DRIVER = "c18"
 ASSUMPTIONS = [
     "uncompressed LAS (no LAZ backend is installed); one laspy handle per stream at a time; no double close",
-    "the stream's own methods do not fail (the non-seekable double refuses seek/tell, nothing else; the read-only source has "
-    "read/close/closed and no other attribute: asking it `x.seekable()` is an AttributeError, which the model predicts from the "
-    "way the source asks)",
+    "the stream's close(), closed and seekable() do not fail; its read/readinto/seek/tell/write/flush/truncate may (injected faults: "
+    "the k-th such call of the session raises, once or from then on). The non-seekable double refuses seek/tell; the read-only source "
+    "has read/close/closed and no other attribute: asking it `x.seekable()` is an AttributeError, which the model predicts from the "
+    "way the source asks",
+    "after an injected fault positions and read counts are not compared any more; a session in which a body operation follows "
+    "a fault, and sessions that call reader.read_evlrs() directly, are judged by the oracle only (the model has no words for them); "
+    "the model is told under which event a fault came out as an exception and of which class; which statement of a close method "
+    "raised is not observed (the model is given the first fault point: all fault points of one generated close method carry the same "
+    "close actions in the source as it is and with the close action in a finally)",
     "positions are modelled and compared for read sessions only; write/append sessions are compared on closed/open and result class",
     "a LAS content that starts at a position other than 0 of a SEEKABLE stream is generated without EVLRs only: LasHeader.read_evlrs and "
     "the point reader's seek use the header's absolute offsets (they would look at other bytes); non-seekable streams and read-only "
@@ -130,6 +144,65 @@ class ReadOnlySource:
 
     def position(self):
         return self._b.tell()
+
+
+# ---------------------------------------------------------------------------------
+# fault injection: the k-th stream operation of the session fails
+# ---------------------------------------------------------------------------------
+FAULT_OPS = ("read", "readinto", "seek", "tell", "write", "flush", "truncate")
+
+
+class StreamAbort(BaseException):
+    """what a stream operation raises when the process is being interrupted: not an Exception (KeyboardInterrupt-like)"""
+
+
+def fault_class(name):
+    import laspy
+    return {"OSError": OSError, "TimeoutError": TimeoutError, "UnsupportedOperation": io.UnsupportedOperation,
+            "ValueError": ValueError, "EOFError": EOFError, "RuntimeError": RuntimeError, "MemoryError": MemoryError,
+            "AttributeError": AttributeError, "IndexError": IndexError, "LaspyException": laspy.errors.LaspyException,
+            "StreamAbort": StreamAbort}[name]
+
+
+FAULT_CLASSES = ["OSError", "ValueError", "StreamAbort", "LaspyException", "AttributeError", "UnsupportedOperation", "MemoryError",
+                 "EOFError", "RuntimeError", "TimeoutError", "IndexError"]
+CATCH = (Exception, StreamAbort)
+
+
+class FaultProxy:
+    """What laspy is handed instead of the caller's stream when faults are injected: every attribute is the stream's own (an
+    attribute the stream does not have is missing here too), but the k-th call of one of FAULT_OPS since laspy got the object
+    raises (and, for a sticky fault, every later one does: the device is gone). close()/closed are the stream's own: what the
+    harness looks at is the stream itself. k = 0: nothing fails, the operations are only logged."""
+
+    def __init__(self, inner, k, exc, sticky):
+        self._inner = inner
+        self._k = k
+        self._exc = exc
+        self._sticky = sticky
+        self._n = 0
+        self._oplog = []
+        self._raised = 0
+        self._tag = None
+        self._stacks = []       # per fault raised: the names of the functions on the call stack
+
+    def __getattr__(self, name):
+        a = getattr(self._inner, name)
+        if name in FAULT_OPS and callable(a):
+            def op(*args, **kw):
+                self._n += 1
+                self._oplog.append((self._tag, name))
+                if self._k and (self._n == self._k or (self._sticky and self._n > self._k)):
+                    self._raised += 1
+                    fr, names = sys._getframe(1), []
+                    while fr is not None and len(names) < 60:
+                        names.append(fr.f_code.co_name)
+                        fr = fr.f_back
+                    self._stacks.append(names)
+                    raise fault_class(self._exc)(f"injected fault: {name} #{self._n}")
+                return a(*args, **kw)
+            return op
+        return a
 
 
 # ---------------------------------------------------------------------------------
@@ -414,10 +487,75 @@ class UserError(RuntimeError):
     pass
 
 
+def model_tokens(sc, steps, fis):
+    """the model events that tell the scenario as laspy ran it: one list of tokens per event (the model's last step of the
+    group is compared with what laspy did), or None when the model has no words for it (judged by the oracle only).
+    What the stream did is the environment's choice: an event under which an injected fault came out as an exception is told
+    to the model as such (outcome fault-<class> of an open, F<class> for an operation on the handle, Y.. for a close method)."""
+    pre = sc.get("pre", 0)
+    out = []
+    dirty = False          # a stream fault has happened in this session: positions and read counts are not known any more
+    spec = sc["file"]
+    zero = finfo_tok(ZERO_FI)
+    tf = lambda b: "T" if b else "F"
+    for ev, st, fi in zip(sc["events"], steps, fis):
+        k = ev[0]
+        faulted = bool(st.get("faulted"))
+        came_out = faulted and st["res"] in ("xl", "xo", "xb")
+        c = st["res"][1] if came_out else None
+        if st["res"] == "ig":
+            out.append([ev_tok(ev, fi, pre)] if k not in ("I", "E", "Bf") else ["X" if k == "Bf" else "Q"])
+            continue
+        if k == "E":
+            return None
+        if k in BODY_OPS and dirty:
+            return None
+        if k == "N":
+            dirty = False
+        if faulted:
+            dirty = True
+        if k == "O" and came_out:
+            out.append([f"O{ev[1]}{tf(ev[2])}{tf(ev[3])}:fault-{c}:{zero}"])
+        elif k == "I":
+            n = ev[1]
+            if n <= 0 or "pr0" not in st or (st["res"] != "ok" and not came_out) or ev_outcome(sc, ev) != "ok":
+                return None
+            if came_out:
+                out.append([f"P{n}"] * ((st["pr1"] - st["pr0"]) // n) + [f"F{c}"])
+            else:
+                left = max(0, spec[2] - st["pr0"])
+                out.append([f"P{n}"] * (-(-left // n) + 1))
+        elif k in BODY_OPS and came_out:
+            out.append([f"F{c}"])
+        elif k in ("X", "C", "B", "Bf", "Wbad", "Sbad") and came_out:
+            out.append([f"Y{'c' if k == 'C' else 'x'}0:{c}"])
+        elif k == "Bf":
+            out.append(["B" + st["res"][1]] if st["res"] != "ok" else ["X"])
+        elif k == "L" and came_out:
+            out.append([f"M{tf(ev[1])}:{c}:{finfo_tok(fi)}"] if st.get("fault_under_read") else [f"L{tf(ev[1])}:fault-{c}:{zero}"])
+        elif k == "D" and came_out:
+            out.append([f"Dfault-{c}"])
+        else:
+            out.append([ev_tok(ev, fi, pre)])
+    return out
+
+
+def ev_outcome(sc, ev):
+    """the outcome of the session the event belongs to"""
+    evs = sc["events"]
+    i = next(j for j, e in enumerate(evs) if e is ev)
+    for e in reversed(evs[:i + 1]):
+        if e[0] == "O":
+            return e[4]
+    return "ok"
+
+
 def res_class(ex):
     import laspy
     if ex is None:
         return "ok"
+    if not isinstance(ex, Exception):
+        return "xb"
     return "xl" if isinstance(ex, laspy.errors.LaspyException) else "xo"
 
 
@@ -431,9 +569,17 @@ def ps_tok(handle):
     return {"UncompressedPointReader": "r", "EmptyPointReader": "e"}.get(type(ps).__name__, "?")
 
 
+PHASE = {"O": "open", "P": "read_points", "A": "read", "S": "seek", "Q": "point_source", "I": "chunk_iterator", "E": "read_evlrs",
+         "W": "write_points", "We": "write_evlrs", "X": "close", "C": "close", "B": "close", "Bf": "close", "Wbad": "close",
+         "Sbad": "close", "D": "LasData.write", "L": "laspy.read"}
+BODY_OPS = ("P", "S", "A", "Q", "I", "E", "W", "We")
+NEED_HANDLE = BODY_OPS + ("X", "B", "Bf", "Wbad", "Sbad", "C")
+
+
 def run_impl(scen):
     """Runs the scenario on laspy. Returns (steps, gone, stream_info): steps[i] = dict(res, closed, pos, ps, mode, extra...) after
-    event i; gone = list of dict(how, mode, outcome, closefd, was_open, closed, at) for every moment laspy lets go of the stream."""
+    event i; gone = list of dict(how, mode, outcome, closefd, was_open, closed, at) for every moment laspy lets go of the stream.
+    scen["fault"] = [k, exception class, sticky]: laspy is handed a FaultProxy of the stream (k = 0: operations are only logged)."""
     import laspy
     kind = scen["src"]
     spec = tuple(scen["file"])
@@ -444,23 +590,32 @@ def run_impl(scen):
     pre = scen.get("pre", 0)
     writable = scen.get("writable", True) or first[0] in ("D",) or (first[0] == "O" and first[1] in "wa")
     stream = make_stream_at(kind, PRE[:pre] + init, writable, pre)
+    fault = scen.get("fault")
+    proxy = FaultProxy(stream, int(fault[0]), fault[1], bool(fault[2])) if fault else None
+    given = proxy if proxy is not None else stream      # what laspy gets; the harness itself looks at `stream`
     handle = None
     sess = None          # dict(mode, closefd)
     content = init
     steps, gone = [], []
     pos_valid = True
     fis = []
+    last_ex = None       # what the last body operation of the session raised
+    fault_phase = None   # the public operation under which the latest injected fault was raised
     for i, ev in enumerate(events):
         k = ev[0]
         ex = None
         info = {}
         fi = ZERO_FI
         was_open = not stream.closed
-        if handle is None and k in ("P", "S", "A", "Q", "W", "We", "X", "B", "Wbad", "Sbad", "C"):
+        if handle is None and k in NEED_HANDLE:
             # the open that should have given a handle did not: nothing to operate on (the open itself is what disagrees)
             fis.append(fi)
             steps.append({"res": "ig", "exc": None, "closed": stream.closed, "pos": None, "ps": None, "handle": False})
             continue
+        raised0 = proxy._raised if proxy is not None else 0
+        ngone0 = len(gone)
+        if proxy is not None:
+            proxy._tag = i
         if k == "N":
             content = content_for_next(spec, events, i)
             try:
@@ -480,23 +635,25 @@ def run_impl(scen):
                 if mode == "r":
                     kw["read_evlrs"] = re
             base = pos_of(stream, kind) if (pos_valid and was_open) else None
+            last_ex = None
             try:
-                handle = laspy.open(stream, mode=mode, closefd=cf, **kw)
-                sess = {"mode": mode, "closefd": cf, "first_read": mode == "r" and pos_valid, "re": re}
+                handle = laspy.open(given, mode=mode, closefd=cf, **kw)
+                sess = {"mode": mode, "closefd": cf, "first_read": mode == "r" and pos_valid, "re": re, "open0": was_open}
                 if mode == "r":
                     info["offset_expected"] = (base or 0) + fi["offset"]
                     info["base"] = base
                     info["pos_checked"] = pos_valid
                 else:
                     pos_valid = False
-            except Exception as e:  # noqa
+            except CATCH as e:  # noqa
                 ex = e
                 handle = None
                 pos_valid = False
                 gone.append({"how": "failed-open", "mode": mode, "outcome": outcome, "closefd": cf, "was_open": was_open,
                              "closed": stream.closed, "at": i, "exc": type(e).__name__,
                              "precondition": mode == "w" and was_open and not seekable_kind(kind)})
-        elif k in ("P", "S", "A", "Q", "W", "We"):
+        elif k in BODY_OPS:
+            last_ex = None
             try:
                 if k == "P":
                     rec = handle.read_points(ev[1])
@@ -512,46 +669,62 @@ def run_impl(scen):
                     handle.read()
                 elif k == "Q":
                     handle.point_source
+                elif k == "I":
+                    info["pr0"] = int(handle.points_read)
+                    try:
+                        for _ in handle.chunk_iterator(ev[1]):
+                            pass
+                    finally:
+                        info["pr1"] = int(handle.points_read)
+                elif k == "E":
+                    handle.read_evlrs()
                 elif k == "We" and sess["mode"] == "w" and handle.header.version.minor >= 4:
                     handle.write_evlrs(laspy.vlrs.vlrlist.VLRList([laspy.VLR(user_id="late", record_id=9, description="", record_data=b"xyz")]))
                 else:
                     pts = laspy.PackedPointRecord.zeros(2, handle.header.point_format)
                     handle.write_points(pts) if sess["mode"] == "w" else handle.append_points(pts)
-            except Exception as e:  # noqa
+            except CATCH as e:  # noqa
                 ex = e
-                if k in ("P", "A"):
+                last_ex = e
+                if k in ("P", "A", "I", "E"):
                     pos_valid = False      # a read that failed leaves the stream wherever the failure happened
             sess["first_read"] = False
-        elif k in ("X", "B", "Wbad", "Sbad"):
+        elif k in ("X", "B", "Bf", "Wbad", "Sbad"):
+            reraised = k == "Bf" and last_ex is not None
             try:
                 with handle:
                     if k == "B":
                         raise (laspy.errors.LaspyException("user") if ev[1] == "l" else UserError("user"))
+                    if reraised:
+                        raise last_ex          # the exception of the last operation leaves the with block
                     if k == "Wbad":
                         other = laspy.PointFormat(0 if handle.header.point_format.id != 0 else 1)
                         pts = laspy.PackedPointRecord.zeros(1, other)
                         handle.write_points(pts) if sess["mode"] == "w" else handle.append_points(pts)
                     if k == "Sbad":
                         handle.seek(int(handle.header.point_count) + 5)
-            except Exception as e:  # noqa
+            except CATCH as e:  # noqa
                 ex = e
-            gone.append({"how": "exit" if k == "X" else "body-raised", "mode": sess["mode"], "closefd": sess["closefd"],
-                         "was_open": was_open, "closed": stream.closed, "at": i,
-                         "propagated": None if k == "X" else ex is not None})
+            plain = k == "X" or (k == "Bf" and not reraised)
+            gone.append({"how": "exit" if plain else "body-raised", "mode": sess["mode"], "closefd": sess["closefd"],
+                         "was_open": sess["open0"], "closed": stream.closed, "at": i,
+                         "propagated": None if plain else ex is not None})
             handle = None
+            last_ex = None
         elif k == "C":
             try:
                 handle.close()
-            except Exception as e:  # noqa
+            except CATCH as e:  # noqa
                 ex = e
-            gone.append({"how": "close", "mode": sess["mode"], "closefd": sess["closefd"], "was_open": was_open,
+            gone.append({"how": "close", "mode": sess["mode"], "closefd": sess["closefd"], "was_open": sess["open0"],
                          "closed": stream.closed, "at": i})
             handle = None
+            last_ex = None
         elif k == "D":
             las, kw = las_data(spec, ev[1], ev[2])
             try:
-                las.write(stream, **kw)
-            except Exception as e:  # noqa
+                las.write(given, **kw)
+            except CATCH as e:  # noqa
                 ex = e
             pos_valid = False
             gone.append({"how": "lasdata-write", "mode": "w", "outcome": ev[1], "closefd": False, "was_open": was_open,
@@ -562,17 +735,28 @@ def run_impl(scen):
                 fi = finfo_of(content, pre)
             try:
                 prepared = pos_valid
-                las = laspy.read(stream, closefd=cf)
+                las = laspy.read(given, closefd=cf)
                 if prepared and outcome == "ok":
                     info["points_read"] = len(las.points)
                     info["points_expected"] = fi["count"]
-            except Exception as e:  # noqa
+            except CATCH as e:  # noqa
                 ex = e
                 pos_valid = False
             gone.append({"how": "read-las", "mode": "r", "outcome": outcome, "closefd": cf, "was_open": was_open,
                          "closed": stream.closed, "at": i})
         else:
             raise ValueError(ev)
+        if proxy is not None:
+            proxy._tag = None
+            if proxy._raised > raised0:
+                info["faulted"] = True
+                info["fault_under_read"] = "read" in proxy._stacks[raised0]      # LasReader.read is on the stack
+                pos_valid = False
+                fault_phase = PHASE[k]
+                if k == "W" and sess is not None and sess["mode"] == "a":
+                    fault_phase = "append_points"
+            for g in gone[ngone0:]:
+                g["fault_phase"] = fault_phase
         fis.append(fi)
         st = {"res": res_class(ex), "exc": type(ex).__name__ if ex is not None else None, "closed": stream.closed,
               "pos": pos_of(stream, kind) if pos_valid else None, "ps": ps_tok(handle) if handle is not None else None,
@@ -581,8 +765,15 @@ def run_impl(scen):
         steps.append(st)
     # the caller's stream must not be owned by anything laspy created: drop every reference, collect, look again
     after = {"open_before_gc": not stream.closed}
+    if proxy is not None:
+        if proxy._k == 0:
+            after["oplog"] = list(proxy._oplog)
+        elif proxy._k <= len(proxy._oplog):
+            after["hit"] = proxy._oplog[proxy._k - 1]      # (event index, operation) of the one that failed (first)
+        after["faults_raised"] = proxy._raised
     handle = None
     las = None
+    ex = last_ex = rec = None
     gc.collect()
     after["open_after_gc"] = not stream.closed
     if after["open_before_gc"] and after["open_after_gc"] and seekable_kind(kind):
@@ -857,29 +1048,45 @@ def correspond(ctx):
         "inside a record, undecodable EVLR user id} x preloading x bodies x ends and through laspy.read; LAS contents that start at byte "
         "1/64/300 of the stream (read sessions, laspy.read x every outcome); plus random histories of up to 4 sessions on one stream "
         "(the caller refills and rewinds it in between; attempts on a stream laspy already closed). non-trivial = anything but 'open ok; "
-        "exit'; distinct by (source kind, file, events)")
+        "exit'; distinct by (source kind, file, events); plus the stream-fault scenarios of `fault_rule` (every one the model has words "
+        "for is compared with it; all are judged by the oracle)")
     scs = scenarios(ctx)
+    fscs = fault_scenario_list(ctx)
     impl = []
     cmds = []
     import laspy  # noqa: F401
     gc.collect()
     gc.freeze()       # what exists now is not rescanned by the per-scenario gc.collect()
-    for sc in scs:
+    compared = []
+    for n, sc in enumerate(scs + fscs):
+        if n % 256 == 255:
+            gc.freeze()       # neither are the results kept so far
         steps, gone, after, fis = run_impl(sc)
-        impl.append((steps, gone, after))
         _RUNS[run_key(sc)] = (steps, gone, after)
-        toks = [ev_tok(ev, fi, sc.get("pre", 0)) for ev, fi in zip(sc["events"], fis)]
-        cmds.append("run " + cap_tok(sc["src"]) + f" {sc.get('pre', 0)} " + " ".join(toks))
+        groups = model_tokens(sc, steps, fis)
+        if groups is None:
+            ctx.count("fault scenario the model has no words for (oracle only)")
+            continue
+        compared.append(sc)
+        impl.append((steps, gone, after, groups))
+        cmds.append("run " + cap_tok(sc["src"]) + f" {sc.get('pre', 0)} " + " ".join(t for g in groups for t in g))
     gc.unfreeze()
     outs = common.run_model(cmds, name=DRIVER)
     dis = []
-    for sc, (steps, gone, after), line, cmd in zip(scs, impl, outs, cmds):
-        register(ctx, sc, steps)
+    for sc, (steps, gone, after, groups), line, cmd in zip(compared, impl, outs, cmds):
+        if "fault" in sc:
+            ctx.count("fault scenario compared with the model")
+        else:
+            register(ctx, sc, steps)
         ctx.traces += 1
         if line.startswith("driver-error") or line.startswith("unknown"):
             dis.append({"kind": "model driver error", "input": sc, "model": line, "impl": None})
             continue
-        msteps, mlog, mok = parse_model(line)
+        allsteps, mlog, mok = parse_model(line)
+        msteps, at = [], 0
+        for g in groups:         # the model's step after the last token of each event's group
+            at += len(g)
+            msteps.append(allsteps[at - 1])
         bad = None
         for i, (ms, st) in enumerate(zip(msteps, steps)):
             ev = sc["events"][i]
@@ -901,7 +1108,8 @@ def correspond(ctx):
             bad = (len(steps) - 1, "number of let-go moments", len(mlog), len(gone))
         if bad is not None:
             i, what, m, im = bad
-            dis.append({"kind": f"{what} after {sc['events'][i][0]}", "input": dict(sc, at=i, model_cmd=cmd), "model": m, "impl": im})
+            dis.append({"kind": f"{what} after {sc['events'][i][0]}" + (" (stream fault injected)" if sc.get("fault") and sc["fault"][0] else ""),
+                        "input": dict(sc, at=i, model_cmd=cmd), "model": m, "impl": im})
     shutil.rmtree(SCRATCH, ignore_errors=True)
     return dis
 
@@ -910,11 +1118,11 @@ def correspond(ctx):
 # the property on the implementation (no model)
 # ---------------------------------------------------------------------------------
 _RUNS = {}
-SC_KEYS = ("src", "file", "events", "writable", "pre")
+SC_KEYS = ("src", "file", "events", "writable", "pre", "fault")
 
 
 def run_key(sc):
-    return repr((sc["src"], sc["file"], sc["events"], sc.get("writable", True), sc.get("pre", 0)))
+    return repr((sc["src"], sc["file"], sc["events"], sc.get("writable", True), sc.get("pre", 0), sc.get("fault")))
 
 
 def oracle(sc):
@@ -933,9 +1141,19 @@ def oracle(sc):
         want = g["closefd"]
         if g["closed"] != want:
             what = g["how"] + (":" + g["outcome"] if "outcome" in g and g["how"] != "lasdata-write" else "")
-            out.append((f"{g['how']} mode={g['mode']} closefd={g['closefd']} -> closed={g['closed']}",
-                        f"event #{g['at']} ({what}): stream.closed is {g['closed']}, expected {want}"
-                        + (f" [{g['exc']}]" if g.get("exc") else "")))
+            if g.get("fault_phase"):
+                # a stream operation failed under laspy: the class of the failure is where (under which public operation) and
+                # what became of the stream, however laspy let go of it afterwards
+                f = sc["fault"]
+                hit = after.get("hit")
+                out.append((f"mode={g['mode']} closefd={g['closefd']} -> closed={g['closed']} after a stream fault in {g['fault_phase']}",
+                            f"stream operation #{f[0]} of the session ({hit[1] if hit else '?'}, under event #{hit[0] if hit else '?'}) raised "
+                            f"{f[1]}{' and so did every later one' if f[2] else ''}; event #{g['at']} ({what}): laspy has let go of the "
+                            f"stream, stream.closed is {g['closed']}, expected {want}"))
+            else:
+                out.append((f"{g['how']} mode={g['mode']} closefd={g['closefd']} -> closed={g['closed']}",
+                            f"event #{g['at']} ({what}): stream.closed is {g['closed']}, expected {want}"
+                            + (f" [{g['exc']}]" if g.get("exc") else "")))
         if g["how"] == "body-raised" and g.get("propagated") is False:
             out.append((f"exception of the with-body swallowed mode={g['mode']}", f"event #{g['at']}"))
     for i, st in enumerate(steps):
@@ -958,29 +1176,220 @@ def oracle(sc):
     return out
 
 
+# ---- stream faults: sessions through every public operation, every stream operation of the session failing in turn
+R_FILES = [("1.4", 7, 3, 2), ("1.2", 1, 3, 0), ("1.4", 6, 0, 1), ("1.2", 3, 0, 0)]
+R_BODIES = [[["P", 2]], [["P", 1], ["P", -1]], [["A"]], [["S", 1, 0], ["P", 1]], [["I", 2]], [["Q"], ["A"]], [["E"], ["P", 1]],
+            [["P", 1], ["S", 0, 0], ["A"]], []]
+W_BODIES = [[], [["W"]], [["W"], ["W"]], [["W"], ["We"]]]
+
+
+def fault_bases(ctx):
+    """fault-free sessions (the faults are put in afterwards): modes r/w/a x closefd x EVLR preloading x bodies through
+    read_points, read, seek, chunk_iterator, .point_source, read_evlrs, write_points/append_points, write_evlrs x {with-exit, close()},
+    laspy.read, LasData.write, on every source kind. The quick tier takes the whole grid on a BytesIO for the two files that have
+    points (all of it for the 1.4 file with EVLRs) and a sample of the rest (70 sessions; 600 in the thorough tier)."""
+    grid, rest = [], []
+    for kind in KINDS:
+        for spec in R_FILES:
+            for cf in (True, False):
+                main = kind == "bytesio" and (spec == R_FILES[0] or spec == R_FILES[1])
+                for re in (True, False):
+                    if spec[3] == 0 and not re:
+                        continue           # preloading changes nothing without EVLRs
+                    for body in R_BODIES:
+                        for end in (["X"], ["C"]):
+                            sc = {"src": kind, "file": list(spec), "writable": False, "events": [["O", "r", cf, re, "ok", 0]] + body + [end]}
+                            (grid if main else rest).append(sc)
+                if seekable_kind(kind):
+                    for mode in "wa":
+                        for body in W_BODIES:
+                            for end in (["X"], ["C"]):
+                                sc = {"src": kind, "file": list(spec), "events": [["O", mode, cf, True, "ok", 0]] + body + [end]}
+                                (grid if main else rest).append(sc)
+                sc = {"src": kind, "file": list(spec), "writable": False, "events": [["L", cf, "ok", 0]]}
+                (grid if main else rest).append(sc)
+                if seekable_kind(kind) and not cf:
+                    # a second, healthy session on the stream laspy was told to leave open
+                    rest.append({"src": kind, "file": list(spec), "events": [["O", "r", False, True, "ok", 0], ["P", 1], ["X"], ["N"],
+                                                                             ["O", "a", False, True, "ok", 0], ["W"], ["C"], ["N"], ["L", False, "ok", 0]]})
+            if seekable_kind(kind):
+                (grid if kind == "bytesio" else rest).append({"src": kind, "file": list(spec), "events": [["D", "ok", 0]]})
+    ctx.rng.shuffle(rest)
+    # sessions that write come last (a failing input of a read session is the simpler one to look at)
+    return sorted(grid + rest[:ctx.n(70, 600)], key=lambda sc: any(e[0] == "O" and e[1] in "wa" for e in sc["events"]))
+
+
+def fault_scenarios(ctx):
+    """generator of scenarios: for every base session, the k-th stream operation (read/readinto/seek/tell/write/flush/truncate)
+    laspy performs on the caller's stream fails, k = 1 .. all of them; what fails is found by running the session once on a
+    proxy that only logs. A fault under a body operation is followed (a) by the rest of the session - the caller caught it
+    inside the with block and goes on, then leaves normally or closes - and (b) by the exception leaving the with block."""
+    ncls = len(FAULT_CLASSES)
+    for bi, base in enumerate(fault_bases(ctx)):
+        probe = dict(base, fault=[0, "OSError", False])
+        yield probe                       # the proxy itself must change nothing
+        try:
+            oplog = run_impl(probe)[2]["oplog"]
+        except Exception:  # noqa  (reported by the oracle on the probe)
+            continue
+        evs = base["events"]
+        for k in range(1, len(oplog) + 1):
+            at, name = oplog[k - 1]
+            tails = [evs]
+            if at is not None and evs[at][0] in BODY_OPS:
+                tails.append(evs[:at + 1] + [["Bf"]])
+            for ti, tail in enumerate(tails):
+                variants = [("OSError", False)]
+                if ctx.thorough():
+                    variants += [("OSError", True)] + [(FAULT_CLASSES[(bi + k + j) % ncls], (bi + k + j) % 2 == 1) for j in range(1, 4)]
+                elif ti == len(tails) - 1:
+                    variants.append((FAULT_CLASSES[(bi + k) % ncls], (bi + k) % 3 == 0))
+                for cls, sticky in dict.fromkeys(variants):
+                    yield dict(base, events=tail, fault=[k, cls, sticky])
+
+
+# ---- other entry points and the default of closefd (the events above always say closefd and always go through laspy.open)
+ENTRIES = ["laspy.open r", "laspy.open w", "laspy.open a", "LasReader", "LasWriter", "LasAppender", "laspy.read", "laspy.open r positional"]
+
+
+def entry_cases():
+    return [{"entry": e, "closefd": cf, "end": end} for e in ENTRIES for cf in ("default", True, False)
+            for end in (("exit", "close", "body-raises", "dropped") if e != "laspy.read" else ("exit",))]
+
+
+def run_entry(case):
+    """the stream is handed to the entry point (closefd left out, True or False), the handle is used as a context manager / closed /
+    left by an exception / only dropped; -> list of (kind, observed)"""
+    import laspy
+    raw = base_file(("1.2", 1, 3, 0))
+    e, cf, end = case["entry"], case["closefd"], case["end"]
+    kw = {} if cf == "default" else {"closefd": cf}
+    s = io.BytesIO(raw if e not in ("laspy.open w", "LasWriter") else b"")
+    want = cf is not False          # documented default: closefd=True
+    ex = None
+    try:
+        if e == "laspy.read":
+            laspy.read(s, **kw)
+            h = None
+        elif e == "laspy.open r":
+            h = laspy.open(s, mode="r", **kw)
+        elif e == "laspy.open r positional":
+            h = laspy.open(s, "r", *([] if cf == "default" else [cf]))      # open_las(source, mode, closefd)
+        elif e == "laspy.open w":
+            h = laspy.open(s, mode="w", header=laspy.LasHeader(), **kw)
+        elif e == "laspy.open a":
+            h = laspy.open(s, mode="a", **kw)
+        elif e == "LasReader":
+            h = laspy.LasReader(s, **kw)
+        elif e == "LasWriter":
+            h = laspy.LasWriter(s, laspy.LasHeader(), **kw)
+        else:
+            from laspy.lasappender import LasAppender
+            h = LasAppender(s, **kw)
+        if h is not None:
+            if end == "exit":
+                with h:
+                    pass
+            elif end == "close":
+                h.close()
+            elif end == "body-raises":
+                try:
+                    with h:
+                        raise UserError("user")
+                except UserError:
+                    pass
+            else:
+                want = False           # a handle that is only dropped has not been told to let go of anything
+                h = None
+                gc.collect()
+    except Exception as x:  # noqa
+        ex = x
+    out = []
+    if ex is not None:
+        out.append((f"entry point {e} closefd={cf} fails on a well-formed stream", f"{type(ex).__name__}: {ex}"))
+    elif s.closed != want:
+        out.append((f"entry point {e} closefd={cf} {end} -> closed={s.closed}", f"stream.closed is {s.closed}, expected {want}"))
+    return out
+
+
+_FSCEN = None
+
+
+def fault_scenario_list(ctx):
+    global _FSCEN
+    if _FSCEN is None:
+        gc.collect()
+        gc.freeze()
+        _FSCEN = list(fault_scenarios(ctx))
+        gc.unfreeze()
+    return _FSCEN
+
+
 def search(ctx, seeds):
     scs = scenarios(ctx)
     cand = [d["input"] for d in seeds if isinstance(d.get("input"), dict) and "events" in d["input"]] + scs
     failing = []
     seen = set()
     import laspy  # noqa: F401
+    ctx.extra["fault_rule"] = (
+        "stream faults (oracle only): sessions in modes r/w/a x closefd x EVLR preloading x bodies {read_points, read, seek, "
+        "chunk_iterator, .point_source, read_evlrs, write_points/append_points, write_evlrs, combinations, none} x {with-exit, close()}, "
+        "laspy.read, LasData.write, several sessions on one stream, on every source kind; laspy is handed a proxy of the stream on which "
+        "the k-th call of read/readinto/seek/tell/write/flush/truncate since it got it raises, for every k of the session (opening, "
+        "every body operation, closing), once or from then on, with OSError and with " + ", ".join(FAULT_CLASSES[1:]) + " (StreamAbort "
+        "is not an Exception); a fault under a body operation is followed by the rest of the session (caught inside the with block, "
+        "then normal exit or close()) and by the exception leaving the with block; judged by the property's iff at every moment "
+        "laspy lets go of the stream. Entry points (oracle only): laspy.open r/w/a (keyword and positional closefd), the LasReader / "
+        "LasWriter / LasAppender constructors, laspy.read x closefd {left out (documented default True), True, False} x {with-exit, "
+        "close(), with-body raises, handle only dropped}")
     gc.collect()
     gc.freeze()
-    for sc in cand:
+
+    def judge(sc):
         sc = {k: v for k, v in sc.items() if k in SC_KEYS}
         try:
             bad = oracle(sc)
         except Exception as ex:  # the scenario itself could not be run: report it, it is not a verdict on the property
             ctx.notes.append(f"oracle could not run {sc}: {ex!r}")
-            continue
+            return
         for kind, observed in bad:
             if kind in seen:
                 continue
             seen.add(kind)
             small = shrink(sc, kind)
             failing.append({"kind": kind, "input": small, "observed": [o for k, o in oracle(small) if k == kind][0]})
+
+    for n, sc in enumerate(cand):
+        if n % 256 == 255:
+            gc.freeze()
+        judge(sc)
         if len(failing) >= 8:
             break
+    for case in entry_cases():
+        ctx.case(("entry", tuple(case.values())), nontrivial=True)
+        ctx.count("entry point:" + case["entry"])
+        try:
+            bad = run_entry(case)
+        except Exception as ex:  # noqa
+            ctx.notes.append(f"entry case could not run {case}: {ex!r}")
+            continue
+        for kind, observed in bad:
+            if kind not in seen and len(failing) < 8:
+                seen.add(kind)
+                failing.append({"kind": kind, "input": case, "observed": observed})
+    nf = 0
+    if len(failing) < 8:
+        for sc in fault_scenario_list(ctx):
+            f = sc["fault"]
+            nf += 1
+            if nf % 256 == 255:
+                gc.freeze()
+            ctx.case(("fault", sc["src"], tuple(sc["file"]), repr(sc["events"]), tuple(f)), nontrivial=f[0] > 0)
+            ctx.count("stream fault: " + ("none (proxy only)" if not f[0] else f[1] + (" from then on" if f[2] else " once")))
+            judge(sc)
+            if len(failing) >= 8:
+                break
+    ctx.extra["fault_scenarios"] = nf
     gc.unfreeze()
     shutil.rmtree(SCRATCH, ignore_errors=True)
     return failing
@@ -994,7 +1403,7 @@ def shrink(sc, kind):
         changed = False
         evs = cur["events"]
         for i in range(len(evs)):
-            if evs[i][0] in ("O", "X", "C", "B", "Wbad", "Sbad", "N"):
+            if evs[i][0] in ("O", "X", "C", "B", "Bf", "Wbad", "Sbad", "N"):
                 continue
             cand = dict(cur, events=evs[:i] + evs[i + 1:])
             try:
@@ -1013,11 +1422,29 @@ def shrink(sc, kind):
                     cur = cand
             except Exception:  # noqa
                 pass
+    # a simpler fault: once instead of from then on, OSError instead of another class
+    if cur.get("fault"):
+        f = cur["fault"]
+        for f2 in ([f[0], f[1], False], [f[0], "OSError", f[2]], [f[0], "OSError", False]):
+            if f2 != cur["fault"]:
+                cand = dict(cur, fault=f2)
+                try:
+                    if any(k == kind for k, _ in oracle(cand)):
+                        cur = cand
+                except Exception:  # noqa
+                    pass
     return cur
 
 
 def replay(ctx, data):
     inp = data.get("failing_input", {}).get("input")
+    if inp and "entry" in inp:
+        bad = run_entry(inp)
+        for kind, observed in bad:
+            print(f"REPRODUCED: {kind}: {observed}")
+        if not bad:
+            print("not reproduced")
+        return 1 if bad else 0
     if not inp or "events" not in inp:
         print("nothing to replay")
         return 0
